@@ -223,6 +223,13 @@ func (x *Exec) specCall(env *evalEnv, n *ast.CallExpr) (Val, bool) {
 			cs = append(cs, fmt.Sprintf("(forall ((%s Int)) (! (=> (and (< 0 %s) (< %s %s)) (= (select %s %s) (select %s %s))) :pattern ((select %s %s))))", r, r, r, env.old.alloc, h1, r, h0, r, h1, r))
 		}
 		return Val{and(cs...), tBool}, true
+	case "rune_at":
+		a := x.expr(env, n.Args[0])
+		i := x.expr(env, n.Args[1])
+		return Val{"(runeAt " + a.S + " " + i.S + ")", types.Typ[types.Rune]}, true
+	case "iface_val":
+		a := x.expr(env, n.Args[0])
+		return Val{"(ival " + a.S + ")", tInt}, true
 	case "is_int":
 		a := x.expr(env, n.Args[0])
 		return Val{eq("(itag "+a.S+")", fmt.Sprint(x.ctx.TypeTag(tInt))), tBool}, true
@@ -303,7 +310,7 @@ func (x *Exec) specFuncCall(env *evalEnv, n *ast.CallExpr, fn *types.Func) Val {
 		x.fail(n.Pos(), "spec function %s must have one result", fn.Name())
 	}
 	rt := sig.Results().At(0).Type()
-	if unit != nil && unit.Decl.Body != nil && !x.expanding[fn] {
+	if unit != nil && unit.Decl.Body != nil && !x.expanding[fn] && !isSpecStub(unit.Decl) {
 		// macro expansion: body is a chain of "if c { return e }" ending in "return e"
 		e2 := &evalEnv{pkg: unit.Pkg.Types, bound: map[string]Val{}, old: env.old, spec: true, prefix: env.prefix}
 		for i := 0; i < sig.Params().Len(); i++ {
@@ -372,4 +379,24 @@ func (x *Exec) specBody(env *evalEnv, stmts []ast.Stmt) (string, bool) {
 		return ite(c.S, a, b), true
 	}
 	return "", false
+}
+
+// isSpecStub: a specification function without definition, written  func f(...) T { panic("spec") }
+func isSpecStub(fd *ast.FuncDecl) bool {
+	if fd.Body == nil {
+		return true
+	}
+	if len(fd.Body.List) != 1 {
+		return false
+	}
+	es, ok := fd.Body.List[0].(*ast.ExprStmt)
+	if !ok {
+		return false
+	}
+	call, ok := es.X.(*ast.CallExpr)
+	if !ok {
+		return false
+	}
+	id, ok := call.Fun.(*ast.Ident)
+	return ok && id.Name == "panic"
 }
